@@ -575,7 +575,23 @@ impl<'t> Normaliser<'t> {
         if !(self.on)("N10") {
             return false;
         }
-        let syn::Expr::MethodCall(en) = method_chain_base(&e.expr) else { return false };
+        // `S.iter().enumerate()` or `S.iter().enumerate().skip(K)` / `.take(K)` with K a literal or a plain name:
+        // the index range becomes `K..S.len()` resp. `0..min(S.len(), K)`
+        let mut start_txt = "0".to_string();
+        let mut take_txt: Option<String> = None;
+        let mut top = method_chain_base(&e.expr);
+        if let syn::Expr::MethodCall(mc) = top {
+            if (mc.method == "skip" || mc.method == "take") && mc.args.len() == 1 {
+                let a = &mc.args[0];
+                let simple = matches!(a, syn::Expr::Lit(_)) || matches!(a, syn::Expr::Path(p) if p.path.segments.len() == 1);
+                if !simple {
+                    return false;
+                }
+                if mc.method == "skip" { start_txt = self.t(a.span()).to_string(); } else { take_txt = Some(self.t(a.span()).to_string()); }
+                top = method_chain_base(&mc.receiver);
+            }
+        }
+        let syn::Expr::MethodCall(en) = top else { return false };
         if en.method != "enumerate" || !en.args.is_empty() {
             return false;
         }
@@ -599,7 +615,10 @@ impl<'t> Normaliser<'t> {
         let (es, ee) = br(e.expr.span());
         let (bs, _) = br(e.body.span());
         self.push(ps, pe, idx.clone(), "N10");
-        self.push(es, ee, format!("0..{}.len()", seq_txt), "N10");
+        match &take_txt {
+            Some(k) => self.push(es, ee, format!("0..pv_min_usize({}.len(), {})", seq_txt, k), "N10"),
+            None => self.push(es, ee, format!("{}..{}.len()", start_txt, seq_txt), "N10"),
+        }
         if elem_pat.trim() != "_" {
             self.push(bs + 1, bs + 1, format!(" let {} = &{}[{}];", elem_pat, seq_txt, idx), "N10");
         }
